@@ -231,6 +231,7 @@ def named_forall(ip, name: str, args: list, n, pred_fn):
         s.done.add(key)
         p.assume(P(*args, z3.IntVal(0)))
         sk = skolem(ip, "sk_" + name, n)
+        ip.path.ghost.setdefault("forall_skolems", {})[(name, tuple(str(a) for a in args))] = sk
         p.assume(z3.Or(P(*args, n), z3.And(sk >= 0, sk < n, z3.Not(pred_fn(sk)))))       # lean: forall_prefix_intro
 
         def pw(k):
